@@ -93,6 +93,17 @@ theorem level_search_correct (text : Bytes) :
 
 example : findLevel 8 0 [93, 93, 10, 93, 61, 93, 120] = 2 := by decide
 
+/-- **The chosen closer occurs nowhere in the text, at any (overlapping) position**: no suffix of the
+text starts with `]` `=`^k `]` for the level `k` the search returns. (A scan that only looks at
+non-overlapping matches — seeded change C18-m3 — misses `]=]` in `]]=]`.) -/
+theorem level_closer_nowhere (text : Bytes) (i : Nat) :
+    (closeComment (findLevel (text.length + 1) 0 text)).isPrefixOf (text.drop i) = false :=
+  containsSub_false_drop _ text (level_search_correct text).1 i
+
+/-- closers of different levels sharing a `]`: `LF ]]=]` needs level 2, `LF ]=]]` too -/
+example : findLevel 6 0 [10, 93, 93, 61, 93] = 2 ∧ findLevel 6 0 [10, 93, 61, 93, 93] = 2
+    ∧ AppendSafeAt [10, 93, 93, 61, 93] [49] 1 ∧ AppendSafeAt [91, 91, 93, 61, 93, 93] [49] 1 := by decide
+
 /-! ## Part B: the rules change trivia only (token model) -/
 
 /-- **code_tokens_unchanged** for `remove_comments` (any `except` list, any matcher):
